@@ -48,3 +48,101 @@ UNITS = {
         "extern": ["bytes"],
     },
 }
+
+# ------------------------------------------------------------------------------------------------
+# unit store
+import re as _re
+from gen import make_ghost_arg_rule, make_for_rule
+
+STORE_HEADER = """#![feature(sized_hierarchy)]
+#![allow(unused_imports, dead_code, unused_variables, unused_mut, unused_parens, unused_braces, unused_unsafe)]
+use vstd::prelude::*;
+use bytes::Bytes;
+use std::path::{Path, PathBuf};
+
+"""
+
+WORLD_FNS = ["create", "open", "remove_file", "metadata", "append", "sync", "copy", "read", "next", "sorted_fileids",
+             "flush", "put", "delete", "get", "merge", "write", "new_active_datafile", "fileids_to_merge",
+             "rebuild_storage", "populate_keydir_with_hintfile", "populate_keydir_with_datafile", "set", "del"]
+R_GHOST_ARG = make_ghost_arg_rule(WORLD_FNS, skip_after={"get": ["keydir"], "remove": [], "next": []})
+
+
+def _dashmap_for(iter_text, pat):
+    # self . ctx . keydir . iter_mut ( ) . filter ( | e | BODY )   /  MAP . iter ( )  /  MAP . iter_mut ( )
+    m = _re.match(r"^(.*) \. (iter|iter_mut) \( \)(?: \. filter \( \| (\w+) \| (.*) \))?$", iter_text)
+    if not m:
+        return None
+    mp = m.group(1).replace(" ", "")
+    mut = m.group(2) == "iter_mut"
+    name = pat.replace("mut ", "").strip()
+    setup = "let verif_keys = %s.verif_keys(); let mut verif_i: usize = 0;" % mp
+    cond = "verif_i < verif_keys.len()"
+    guard = "%s.verif_guard%s(&verif_keys[verif_i])" % (mp, "_mut" if mut else "")
+    bind = "let %s = %s; verif_i += 1;" % (pat, guard)
+    if m.group(3):
+        body = _re.sub(r"\b%s\b" % m.group(3), "(&%s)" % name, m.group(4))
+        bind += " if !(%s) { continue; }" % body.replace(" . ", ".").replace("( ", "(").replace(" )", ")").replace("& ", "&")
+    return setup, cond, bind
+
+
+R_DASHMAP_ITER = make_for_rule("R-dashmap-iter", _dashmap_for)
+
+
+def _collect_for(iter_text, pat):
+    t = iter_text.replace(" ", "")
+    if t == "&fileids_to_merge":
+        return ("let verif_ids = fileids_to_merge.verif_to_vec(); let mut verif_j: usize = 0;", "verif_j < verif_ids.len()",
+                "let %s = &verif_ids[verif_j]; verif_j += 1;" % pat)
+    if t == "fileids":
+        return ("let mut verif_j: usize = 0;", "verif_j < fileids.len()", "let %s = fileids[verif_j]; verif_j += 1;" % pat)
+    return None
+
+
+R_FOR_COLLECT = make_for_rule("R-for-collect", _collect_for)
+R_ARC = make_seq_rule("R-arc", "Arc<Context>", "Context")
+R_ARC2 = make_seq_rule("R-arc", "Arc<Mutex<Writer>>", "Mutex<Writer>")
+R_ARC3 = make_seq_rule("R-arc", "Arc<ArrayQueue<Reader>>", "ArrayQueue<Reader>")
+R_INTERIOR_1 = make_seq_rule("R-interior", "keydir: &DashMap", "keydir: &mut DashMap")
+R_INTERIOR_2 = make_seq_rule("R-interior", "stats: &DashMap", "stats: &mut DashMap")
+R_INTERIOR_3 = make_seq_rule("R-interior", "&keydir, &stats", "&mut keydir, &mut stats")
+R_INTERIOR_4 = make_seq_rule("R-interior", "let keydir = DashMap::default()", "let mut keydir = DashMap::default()")
+R_INTERIOR_5 = make_seq_rule("R-interior", "let stats = DashMap::default()", "let mut stats = DashMap::default()")
+R_FILEIDS_TY = make_seq_rule("R-fileids", "io::Result<impl Iterator<Item = u64>>", "io::Result<Vec<u64>>")
+R_STD_IO2 = make_seq_rule("R-std-io", "std::io::", "io::")
+
+R_VIS = make_seq_rule("R-vis", "pub fn sync", "fn sync")
+STORE_RULES = (R_VIS, R_GHOST_ARG, R_DASHMAP_ITER, R_FOR_COLLECT, R_ARC, R_ARC2, R_ARC3, R_INTERIOR_1, R_INTERIOR_2, R_INTERIOR_3,
+               R_INTERIOR_4, R_INTERIOR_5)
+
+BITCASK_ONLY = [
+    "enum Error", "struct Context", "struct Writer", "struct Reader", "struct KeyDirEntry", "struct HintFileEntry", "struct DataFileEntry",
+    "impl Writer::fn put", "impl Writer::fn delete", "impl Writer::fn write", "impl Writer::fn new_active_datafile", "impl Writer::fn sync",
+    "impl Reader::fn get",
+]
+
+UNITS["store"] = {
+    "name": "store",
+    "header": STORE_HEADER,
+    "specs": ["log.spec", "utils.spec", "store.spec"],
+    "parts": [
+        ("raw", "prelude/store_prelude.rs", "prelude"),
+        ("raw", "lemmas/world_lemmas.rs", "lemma"),
+        ("repo", "src/storage/bitcask/config.rs", {"mod": "config", "only": ["struct Config", "enum SyncStrategy", "struct MergeStrategy", "enum MergePolicy", "struct MergeTriggers", "struct MergeThresholds"]}),
+        ("raw", "prelude/log_ghost.rs", "prelude", {"mod": "log"}),
+        ("repo", "src/storage/bitcask/log.rs", {"mod": "log", "stub_all": True, "rules": (R_GHOST_ARG,)}),
+        ("repo", "src/storage/bitcask/utils.rs", {"mod": "utils", "stub_all": True, "rules": (R_GHOST_ARG, R_FILEIDS_TY),
+                                                  "only": ["fn datafile_name", "fn hintfile_name", "fn sorted_fileids", "fn timestamp"]}),
+        ("raw", "prelude/store_entry_views.rs", "prelude", {"mod": "bitcask"}),
+        ("raw", "lemmas/store_lemmas.rs", "lemma", {"mod": "bitcask"}),
+        ("repo", "src/storage/bitcask.rs", {"mod": "bitcask", "rules": STORE_RULES, "only": BITCASK_ONLY}),
+    ],
+    "mod_uses": {
+        "log": "use super::utils;\nuse super::io::Write;",
+        "bitcask": "use super::log::{self, LogDir, LogIterator, LogStatistics, LogWriter, LogIndex, enc_len};\nuse super::utils::{self, datafile_name};\nuse super::config::*;\nuse super::io::BufWriter;",
+        "utils": "",
+        "config": "",
+    },
+    "root_uses": "",
+    "extern": ["bytes"],
+}
